@@ -417,7 +417,7 @@ func detailOf(p pkg) string {
 		}
 	}
 	if len(set) == 0 {
-		return describe(p)
+		return coarse(p)
 	}
 	var l []string
 	for k := range set {
@@ -425,6 +425,55 @@ func detailOf(p pkg) string {
 	}
 	sort.Strings(l)
 	return strings.Join(l, "+")
+}
+
+// coarse describes a reduced package whose names are all plain: for a single
+// action holding a single type, the position and the root constructor of the
+// type (nothing when the type is the plain i the reducer leaves where the
+// type does not matter); otherwise the action kinds without their types.
+func coarse(p pkg) string {
+	if len(p.Ifaces) == 1 && len(p.Ifaces[0].Actions) == 1 {
+		a := p.Ifaces[0].Actions[0]
+		var t *sigen.T
+		pos := ""
+		switch {
+		case a.Kind == 'm' && len(a.Params) == 1 && a.Ret.Sig() == "v":
+			t, pos = a.Params[0], "parameter"
+		case a.Kind == 'm' && len(a.Params) == 0:
+			t, pos = a.Ret, "return"
+		case a.Kind == 's' && len(a.Params) == 1:
+			t, pos = a.Params[0], "signal"
+		case a.Kind == 'p' && len(a.Params) == 1:
+			t, pos = a.Params[0], "property"
+		}
+		if a.Bare {
+			pos += "-bare"
+		}
+		if t != nil {
+			if t.Sig() == "i" || t.Sig() == "v" {
+				return pos
+			}
+			d := t.Kind.String()
+			if t.Kind == sigen.Atom {
+				d = "atom=" + string(t.Atom)
+			}
+			return pos + ":" + d
+		}
+	}
+	// several actions: the kinds present, per interface
+	var parts []string
+	for _, it := range p.Ifaces {
+		set := map[string]bool{}
+		for _, a := range it.Actions {
+			kind := map[byte]string{'m': "fn", 's': "sig", 'p': "prop"}[a.Kind]
+			if a.Bare {
+				kind += "-bare"
+			}
+			set[kind] = true
+		}
+		parts = append(parts, "I{"+strings.Join(sortedKeys(set), ",")+"}")
+	}
+	return strings.Join(parts, "+")
 }
 
 func (p pkg) clone() pkg {
@@ -567,7 +616,6 @@ func localize(p pkg, key string) pkg {
 			}
 		}
 	}
-	// plain names wherever the names do not matter
 	try := func(edit func(q *pkg)) {
 		q := cur.clone()
 		edit(&q)
@@ -575,6 +623,22 @@ func localize(p pkg, key string) pkg {
 			cur = q
 		}
 	}
+	// does the type matter at all? try the plain i in every position
+	for i := range cur.Ifaces {
+		for j := range cur.Ifaces[i].Actions {
+			i, j := i, j
+			for k := range cur.Ifaces[i].Actions[j].Params {
+				k := k
+				if cur.Ifaces[i].Actions[j].Params[k].Sig() != "i" {
+					try(func(q *pkg) { q.Ifaces[i].Actions[j].Params[k] = sigen.A('i') })
+				}
+			}
+			if r := cur.Ifaces[i].Actions[j].Ret; r != nil && r.Sig() != "i" && r.Sig() != "v" {
+				try(func(q *pkg) { q.Ifaces[i].Actions[j].Ret = sigen.A('i') })
+			}
+		}
+	}
+	// plain names wherever the names do not matter
 	for i := range cur.Ifaces {
 		i := i
 		if nameClass(cur.Ifaces[i].Name) != "plain" {
@@ -1351,6 +1415,7 @@ func main() {
 		"families":                              famCov,
 		"per_family_evaluations":                total.perFamily,
 		"skipped_slow":                          total.slow,
+		"failures_not_localised":                total.notLocalised,
 		"workers":                               workers,
 		"totality_texts_accepted":               total.parsedOK,
 		"generated_cases_outside_precondition":  skippedIllFormed,
